@@ -287,6 +287,21 @@ def verify(spec, tier="quick", summaries=None, only_props=None, part=None):
                     ob.detail = outcome[1]
                     obs.append(ob)
                     continue
+                if c.kind == "either":
+                    # the clause covers both outcomes: a return must satisfy `check`, a raise of the named
+                    # exception must satisfy `check_exc` (each typically states when that outcome is allowed)
+                    if outcome[0] == "return":
+                        goal = z3.Implies(c.guard, to_z3b(c.check(I, outcome[1])))
+                        ob.detail = "body returns %s" % short_repr(outcome[1])
+                    elif outcome[0] == "raise" and exc_is(outcome[1], c.exc):
+                        goal = z3.Implies(c.guard, to_z3b(c.check_exc(I, outcome[1])))
+                        ob.detail = "body raises %s" % c.exc
+                    else:
+                        goal = z3.Not(c.guard)
+                        ob.detail = "expected a return or %s, body %s" % (c.exc, describe(outcome))
+                    discharge(P, goal, ob)
+                    obs.append(ob)
+                    continue
                 if c.kind == "raise":
                     if outcome[0] == "raise" and exc_is(outcome[1], c.exc):
                         goal = True
